@@ -195,14 +195,16 @@ class Session:
             self.clauses[oid] = Clause(oid)
         return self.clauses[oid]
 
-    def ensure(self, cid, goal, witness="", extra=()):
+    def ensure(self, cid, goal, witness="", extra=(), case=None):
         """obligation: on the current path, goal follows from pc + axioms"""
         I = self.I
         c = self.clause(cid)
         if isinstance(goal, bool):
-            c.add(DISCHARGED if goal else REFUTED, "eval", 0.0,
-                  "" if goal else "clause evaluates to False on a feasible path",
-                  model_to_json(self._path_model(), self.names) if not goal else None, witness)
+            if goal:
+                c.add(DISCHARGED, "eval", 0.0)
+            else:
+                model = case if case is not None else model_to_json(self._path_model(), self.names)
+                c.add(REFUTED, "eval", 0.0, "clause evaluates to False on a feasible path", model, witness)
             return goal
         if isinstance(goal, V.SBool):
             goal = goal.term
@@ -218,10 +220,11 @@ class Session:
             name, cond = I.domain_pending.pop(0)
             self.ensure("arith_defined", cond, witness=name)
 
-    def fail(self, cid, detail, witness=""):
+    def fail(self, cid, detail, witness="", case=None):
         """a path that must not exist (e.g. an exception class the contract forbids)"""
         c = self.clause(cid)
-        c.add(REFUTED, "path", 0.0, detail, model_to_json(self._path_model(), self.names), witness)
+        c.add(REFUTED, "path", 0.0, detail,
+              case if case is not None else model_to_json(self._path_model(), self.names), witness)
 
     def ok(self, cid):
         self.clause(cid).add(DISCHARGED, "path", 0.0)
